@@ -257,7 +257,19 @@ def prune(n):
 ERASED_METHODS = {'array', 'matrix', 'eval', 'derived', 'noalias'}
 
 
+_SX_DEPTH = [0]
+
+
 def sx(e):
+    """see _sx; a postfix ++/-- whose value is used (nested in a larger expression) is spelled 'p++'/'p--', everywhere else ++/-- are 'u++'/'u--'."""
+    _SX_DEPTH[0] += 1
+    try:
+        return _sx(e)
+    finally:
+        _SX_DEPTH[0] -= 1
+
+
+def _sx(e):
     """S-expression of an expression with Eigen view wrappers (.array(), .matrix(), .eval()) and casts erased:
     nested tuples ('op', args...), leaves are strings (names / this.field) or numbers."""
     e = strip(e)
@@ -267,6 +279,8 @@ def sx(e):
     if k == 'Bin':
         return (e['op'], sx(e['l']), sx(e['r']))
     if k == 'Un':
+        if e.get('postfix') and e['op'] in ('++', '--') and _SX_DEPTH[0] > 1:
+            return ('p' + e['op'], sx(e['e']))
         return ('u' + e['op'], sx(e['e']))
     if k == 'Cond':
         return ('?:', sx(e['c']), sx(e['a']), sx(e['b']))
